@@ -219,7 +219,8 @@ def exhaustive_histories():
 
 
 FIELDS = ['depends', 'Pre-Depends', 'BUILD-DEPENDS-INDEP', 'built-using', 'breaks', 'installed-size', 'description',
-          'MD5SUM', 'checksums-sha256', 'x-sha1-y', 'package', 'Provides', 'suggests', 'files', 'maintainer', 'build-conflicts-arch', 'depend', 'depends-x']
+          'MD5SUM', 'checksums-sha256', 'x-sha1-y', 'package', 'Provides', 'suggests', 'files', 'maintainer', 'build-conflicts-arch', 'depend', 'depends-x',
+          'x-upstream-sha256sum', 'sha1sum', 'sha12', 'md5sums', 'xmd5sum', 'sha1-sha256', 'x-sha1x', 'checksums-sha512', 'sha256-md5sum', 'mD5sUM-x', 'sha', 'x--y', '-a', 'a-']
 
 
 def control(rng):
